@@ -8,6 +8,7 @@ import (
 	"fmt"
 	"io"
 	"math/big"
+	"os"
 	"reflect"
 	"runtime/debug"
 	"unsafe"
@@ -75,6 +76,11 @@ type Env struct {
 	protect0 uint64
 	poisoned bool
 }
+
+// noMGlob switches the global-state monitor off. It exists only for the
+// sensitivity experiments of DESIGN.md (does the schedule search alone find
+// the wrong results?) and is never set by a registered command.
+var noMGlob = os.Getenv("VERIF_EXPERIMENT_NO_MGLOB") == "1"
 
 var elemSize = unsafe.Sizeof(secp.Element{})
 var scalSize = unsafe.Sizeof(secp.Scalar{})
@@ -942,9 +948,12 @@ func (x *Env) observe(ts *taskState, oi int, op *Op, recv int, recvIsE int) {
 			return
 		}
 	}
+	if x.R.Aux && recv >= 0 {
+		dg = (dg ^ x.aux(ts, recv, recvIsE == 1, oi)) * 0x100000001b3
+	}
 	// global state: "the package keeps no mutable global state" is C16's
 	// statement only; the other properties do not forbid (say) a cache
-	if name, ok := x.G.CheckDeep(); !ok && x.R.Prop == "C16" {
+	if name, ok := x.G.CheckDeep(); !ok && x.R.Prop == "C16" && !noMGlob {
 		x.fail(ts, oi, op, "M-glob", name, fmt.Sprintf("package-level variable %s changed after initialisation", name))
 		return
 	}
@@ -955,6 +964,82 @@ func (x *Env) observe(ts *taskState, oi int, op *Op, recv int, recvIsE int) {
 			x.fail(ts, oi, op, "M-solo", "observe", "observable state after this call differs from the same task run alone")
 		}
 	}
+}
+
+// aux calls the remaining read-only API functions on the receiver (with shared
+// variables as arguments where one is taken) and returns a digest of their
+// results. No model is consulted: in concurrent runs the digest is compared
+// with the one the same task produced when run alone, which is what the
+// property promises, and it is all that can be asked of functions whose
+// sequential behaviour other (unclaimed) properties describe.
+func (x *Env) aux(ts *taskState, r int, isE bool, oi int) uint64 {
+	var h uint64 = 0xcbf29ce484222325
+	mix := func(b []byte) {
+		for _, c := range b {
+			h = (h ^ uint64(c)) * 0x100000001b3
+		}
+		h = (h ^ 0xfe) * 0x100000001b3
+	}
+	if isE {
+		e := ts.E[r]
+		mix([]byte(e.Hex()))
+		x.yp()
+		b, _ := e.MarshalBinary()
+		x.yp()
+		mix(b)
+		mix(e.XCoordinate())
+		x.yp()
+		mix(e.EncodeUncompressed())
+		x.yp()
+		c := e.Copy()
+		x.yp()
+		mix(c.Encode())
+		x.yp()
+		if n := len(x.sharedE); n > 0 {
+			k := oi % n
+			mix([]byte{byte(e.Equal(x.sharedE[k]))})
+			x.yp()
+			c.Add(x.sharedE[k])
+			x.yp()
+			c.Subtract(x.sharedE[(k+1)%n])
+			x.yp()
+			mix(c.Encode())
+			x.yp()
+		}
+	} else {
+		sc := ts.S[r]
+		mix([]byte(sc.Hex()))
+		x.yp()
+		b, _ := sc.MarshalBinary()
+		x.yp()
+		mix(b)
+		if sc.IsOne() {
+			mix([]byte{1})
+		}
+		x.yp()
+		bits := sc.Bits()
+		x.yp()
+		mix(bits[:])
+		mix([]byte{byte(sc.LessOrEqual(sc))})
+		x.yp()
+		if n := len(x.sharedS); n > 0 {
+			k := oi % n
+			mix([]byte{byte(sc.LessOrEqual(x.sharedS[k])), byte(sc.Equal(x.sharedS[k]))})
+			x.yp()
+			c := sc.Copy()
+			x.yp()
+			_ = c.CSelect(uint64(oi&1), x.sharedS[k], x.sharedS[(k+1)%n])
+			x.yp()
+			mix(c.Encode())
+			x.yp()
+		}
+	}
+	mix(secp.Order())
+	x.yp()
+	mix([]byte(secp.Ciphersuite()))
+	mix([]byte{byte(secp.ScalarLength()), byte(secp.ElementLength())})
+	x.yp()
+	return h
 }
 
 // returns exercises every slice-returning call on the receiver and checks
@@ -1169,7 +1254,7 @@ func Exec(run *Run, ar *arena.Arena, g *Globals, sites *SiteTable) (res Result) 
 	defer func() { crand.Reader = savedReader }()
 	newDev()
 
-	if name, ok := g.CheckDeep(); !ok && run.Prop == "C16" {
+	if name, ok := g.CheckDeep(); !ok && run.Prop == "C16" && !noMGlob {
 		return Result{Incon: Inconclusive{"global " + name + " already differs from the start-up snapshot"}, Stats: x.St}
 	}
 
@@ -1298,7 +1383,7 @@ func Exec(run *Run, ar *arena.Arena, g *Globals, sites *SiteTable) (res Result) 
 	x.Sch = s
 	states := make([]*taskState, len(run.Tasks))
 	s.OnStep = func(site uint32) {
-		if name, ok := g.CheckRaw(); !ok && x.viol == nil && run.Prop == "C16" {
+		if name, ok := g.CheckRaw(); !ok && x.viol == nil && run.Prop == "C16" && !noMGlob {
 			where := ""
 			if sites != nil {
 				where = " at " + sites.Describe(site)
